@@ -122,7 +122,9 @@ Texts == TextSeqUpTo(Alpha, IF Tier = "quick" THEN 4 ELSE 5)
                <<a, a, a, bang>>, <<a, b, semi, a, a, b>>, <<a, a, b, semi, a, a, b, b>>,
                <<a, eqs, a, semi, a, a, eqs, a, a>>, <<a, a, eqs, a, a, semi, a, eqs, a>>, <<a, eqs, a, bang, a, eqs, a>>,
                <<a, a, eqs, a, a, bang>>, <<a, eqs, a, semi, a, eqs, a, semi>>, <<a, eqs, a, lpar, a, a, eqs, a, a, rpar, eqs, a>>,
-               <<a, b, semi, a, eqs, a>>, <<a, eqs, a, semi, a, eqs, b>>, <<a, a, eqs, a>>, <<a, eqs, a, a>> >>
+               <<a, b, semi, a, eqs, a>>, <<a, eqs, a, semi, a, eqs, b>>, <<a, a, eqs, a>>, <<a, eqs, a, a>>,
+               <<a, b, eqs, b, semi, eqs, a>>, <<a, b, eqs, b, semi, eqs, b>>, <<a, a, b, a, eqs, b, a, semi, eqs, a, a>>,
+               <<a, b, eqs, a, semi, eqs, a>> >>
 CountTexts == TextSeqUpTo(<<48, 49, two, b, semi>>, IF Tier = "quick" THEN 4 ELSE 5)
          \o << <<two, b, b, bang>>, <<two, b, b, semi, 49, b, semi>>, <<two, b, bang, 49, b>>,
                <<two, b, lpar, 49, b, rpar, b>>, <<49, lpar, two, b, b, rpar, b>>, <<two, b, b, b, b>> >>
@@ -151,6 +153,11 @@ LawUseExercised ==
     (done /\ c = 0) =>
     \E k \in 1..Len(IF u = "count" THEN CountTexts ELSE Texts) :
         EvalEntry(Grammar(bf, u, c), "start", (IF u = "count" THEN CountTexts ELSE Texts)[k], 0).t = "ok"
+
+\* ... and the shadowing context reaches its second rule for the separator-based use forms
+LawShadowExercised ==
+    (done /\ c = 6 /\ u \in {"whereeq", "argwhere", "tmplkw"}) =>
+    \E k \in 1..Len(Texts) : EvalEntry(Grammar(bf, u, c), "start", Texts[k], 0).t = "ok"
 
 LawRebindExercised ==
     (done /\ c = 1 /\ u \in {"value", "list"}) =>
